@@ -447,7 +447,10 @@ pub fn idiom_n(r: &mut Rng, d: Dim, out: &mut Vec<u8>, k: u64) {
             match r.below(4) {
                 0 => {}
                 1 => out.extend(format!("{}", r.below(3)).as_bytes()),
-                2 => out.extend(format!("{};title {}", r.below(3), r.below(100)).as_bytes()),
+                2 => {
+                    let sel = if r.chance(1, 3) { (*r.pick(&["00", "02", "+1", "01", " 2", "2 ", "000", "+0"])).to_string() } else { format!("{}", r.below(3)) };
+                    out.extend(format!("{sel};title {}", r.below(100)).as_bytes())
+                }
                 _ => {
                     for i in 0..(14 + r.below(6)) {
                         out.extend(format!("{};", i).as_bytes());
@@ -538,7 +541,15 @@ pub fn idiom_n(r: &mut Rng, d: Dim, out: &mut Vec<u8>, k: u64) {
                 ps.push(if r.chance(1, 3) { *r.pick(&unk) } else { *r.pick(&known) });
             }
             let fin = if r.chance(1, 2) { 'h' } else { 'l' };
-            out.extend(format!("\x1b[?{}{}", ps.join(";"), fin).as_bytes());
+            let mut joined = ps.join(";");
+            if r.chance(1, 3) {
+                // a sub-parameter on one of the numbers: the parameter is then not a recognised mode
+                joined = joined.replacen(';', *r.pick(&[":0;", ":1;", ":;"]), 1);
+                if r.chance(1, 2) {
+                    joined.push_str(*r.pick(&[":1", ":0", ":"]));
+                }
+            }
+            out.extend(format!("\x1b[?{joined}{fin}").as_bytes());
         }
         82 => {
             // DECSC with origin mode / region / pen, leave the region or change the mode, DECRC
@@ -1484,6 +1495,24 @@ fn table_ops() -> Vec<Vec<u8>> {
         for term in ["\x07", "\x1b\\"] {
             let fields: Vec<String> = (0..nf).map(|i| if i == 0 { "2".to_string() } else { format!("f{i}") }).collect();
             v.push(format!("\x1b]{}{term}", fields.join(";")).into_bytes());
+        }
+    }
+    // OSC selectors that are numerically 0/1/2 but not the literal digit, and their neighbours
+    for sel in ["0", "1", "2", "3", "00", "01", "02", "000", "+0", "+1", "+2", "-0", " 0", "0 ", "2 ", "1x", "", "10", "21", "0.0", "٠", "０"] {
+        for term in ["\x07", "\x1b\\"] {
+            v.push(format!("\x1b]{sel};title{term}").into_bytes());
+            v.push(format!("\x1b]{sel}{term}").into_bytes());
+            v.push(format!("\x1b]{sel};a;b{term}").into_bytes());
+        }
+    }
+    // DECSET / DECRST with sub-parameters on recognised mode numbers (must stay unrecognised)
+    for m in ["1", "6", "9", "25", "47", "1000", "1002", "1003", "1005", "1006", "1049", "2004"] {
+        for sub in [":0", ":1", ":", ":1:2"] {
+            for fin in ["h", "l"] {
+                v.push(format!("\x1b[?{m}{sub}{fin}").into_bytes());
+                v.push(format!("\x1b[?{m}h\x1b[?{m}{sub}{fin}").into_bytes());
+                v.push(format!("\x1b[?{m}h\x1b[?7;{m}{sub};12{fin}").into_bytes());
+            }
         }
     }
     v.push(format!("\x1b]0;{}\x07", "x".repeat(1100)).into_bytes());
